@@ -41,7 +41,7 @@ package qbft
 //@ inline
 
 //@ func filterMsgs
-//@ props C02 C03 C04
+//@ props C02 C03 C04 C01
 //@ pure
 //@ axiomatic 5
 //@ nopanic
@@ -59,7 +59,7 @@ package qbft
 //@ loop 1 invariant forall(j, 0, $i, matches(msgs[j], typ, round, value, pr, pv) ==> uniq.dedup[msgs[j].Source()])
 
 //@ func isJustifiedRoundChange
-//@ props C02 C04
+//@ props C02 C04 C01
 //@ pure
 //@ nopanic
 //@ requires nodesOK(d)
@@ -73,7 +73,7 @@ package qbft
 //@ loop 1 invariant forall(k, 0, $i, forall(l, k+1, $i, prepares[k].Source() != prepares[l].Source()))
 
 //@ func isJustifiedDecided
-//@ props C02 C03 C04
+//@ props C02 C03 C04 C01
 //@ pure
 //@ nopanic
 //@ requires nodesOK(d)
@@ -83,7 +83,7 @@ package qbft
 //@ canary result
 
 //@ func getSingleJustifiedPrPv
-//@ props C02 C03 C04
+//@ props C02 C03 C04 C01
 //@ pure
 //@ nopanic
 //@ requires nodesOK(d)
@@ -99,7 +99,7 @@ package qbft
 //@ loop 1 invariant count > 0 <==> exists(k, 0, $i, msgs[k].Type() == MsgPrepare)
 
 //@ func nextMinRound
-//@ props C02 C04
+//@ props C02 C04 C01
 //@ nopanic
 //@ requires nodesOK(d)
 //@ requires len(frc) >= faulty(d) + 1
@@ -117,7 +117,7 @@ package qbft
 //@ spec func hasPrepared(s []Msg, pr int64, pv V) bool = exists(k, 0, len(s), s[k].PreparedRound() == pr && s[k].PreparedValue() == pv)
 
 //@ func containsJustifiedQrc
-//@ props C02 C03 C04
+//@ props C02 C03 C04 C01
 //@ pure
 //@ nopanic
 //@ requires nodesOK(d)
@@ -137,7 +137,7 @@ package qbft
 //@ loop 2 invariant found <==> exists(k, 0, $i, qrc[k].PreparedRound() == pr && qrc[k].PreparedValue() == pv)
 
 //@ func isJustifiedPrePrepare
-//@ props C02 C03 C04
+//@ props C02 C03 C04 C01
 //@ pure
 //@ nopanic
 //@ requires nodesOK(d)
@@ -149,7 +149,7 @@ package qbft
 //@ canary result
 
 //@ func isJustified
-//@ props C02 C03 C04
+//@ props C02 C03 C04 C01
 //@ nopanic
 //@ requires nodesOK(d)
 //@ requires msg.Type() > MsgUnknown && msg.Type() < msgSentinel
@@ -169,7 +169,7 @@ package qbft
 //@ spec func validType(m Msg) bool = m.Type() > MsgUnknown && m.Type() < msgSentinel
 
 //@ func getFPlus1RoundChanges
-//@ props C02 C04
+//@ props C02 C04 C01
 //@ nopanic
 //@ requires nodesOK(d)
 //@ ensures r1 ==> len(r0) == faulty(d) + 1 && allRC(r0, round) && distinctSources(r0)
@@ -182,7 +182,7 @@ package qbft
 
 //@ func classify
 //@ assume-nopanic flatten: panics only with a "bug:" message when a justification itself carries justifications, which newMsg never builds; Run recovers "bug" panics
-//@ props C02 C03 C04
+//@ props C02 C03 C04 C01
 //@ nopanic
 //@ requires nodesOK(d)
 //@ requires validType(msg)
